@@ -29,6 +29,14 @@ def main():
         from vk import choicesets
         choicesets.install(policy)
     corpus = c02.corpus(tier, os.environ.get('VK_CORPUS', 'config'))
+    if os.environ.get('VK_GC'):
+        # the cyclic garbage collector runs after every activation (the other configurations run with the collector
+        # switched off): the two extremes of when garbage dies
+        import gc
+        from vk import kernel
+        gc.collect()
+        gc.freeze()
+        kernel.GC_AT_BOUNDARIES[0] = True
     out = {}
     for i in range(lo, min(hi, len(corpus)), step):
         perturb(pattern, i, keep)
